@@ -77,7 +77,7 @@ Theorem C18_rtcp_sticky : forall s src pkt,
   rtcp_remote (recv s src pkt) = rtcp_remote s /\ rtcp_latched (recv s src pkt) = true.
 Proof. exact rtcp_sticky_step. Qed.
 
-(* listed finding (known_findings.jsonl, class port0_adopt): with no signalled address
+(* listed finding (known_findings.d/C18.jsonl, class port0_adopt): with no signalled address
    (port 0) an RTCP packet from a stranger becomes the RTP destination although latching is on
    and an SSRC is expected -- so the hypothesis `port (remote s) <> 0` above cannot be dropped *)
 Theorem C18_port0_adopt_refuted :
